@@ -123,12 +123,62 @@ fn act_label(a: &Act) -> String {
     }
 }
 
+/// One search: an explicit action alphabet and a depth.
 struct Bounds {
-    paths: Vec<&'static str>,
-    contents: Vec<&'static str>,
-    targets: Vec<&'static str>,
-    mkdir_paths: Vec<&'static str>,
+    actions: Vec<Act>,
     max_depth: usize,
+}
+
+fn w(path: &str, content: &str) -> Act {
+    Act::Write { path: path.into(), content: content.into() }
+}
+fn rm(path: &str) -> Act {
+    Act::Delete { path: path.into() }
+}
+fn chmod(path: &str) -> Act {
+    Act::Chmod { path: path.into() }
+}
+fn ln(path: &str, target: &str) -> Act {
+    Act::Link { path: path.into(), target: target.into() }
+}
+fn mkdir(path: &str) -> Act {
+    Act::Mkdir { path: path.into() }
+}
+fn ign(dir: &str, content: Option<&str>) -> Act {
+    Act::Ignore { dir: dir.into(), content: content.map(|c| c.to_string()) }
+}
+
+/// Full product alphabet over paths x contents x link targets, plus the ignore files.
+fn product_alphabet(paths: &[&str], contents: &[&str], targets: &[&str], mkdirs: &[&str], root_ignores: &[&str], nested_ignores: &[&str]) -> Vec<Act> {
+    let mut v = vec![Act::Snapshot];
+    for p in paths {
+        for c in contents {
+            v.push(w(p, c));
+        }
+    }
+    for p in paths {
+        v.push(rm(p));
+        v.push(chmod(p));
+        for t in targets {
+            v.push(ln(p, t));
+        }
+    }
+    for p in mkdirs {
+        v.push(mkdir(p));
+    }
+    if !root_ignores.is_empty() {
+        v.push(ign("", None));
+    }
+    for c in root_ignores {
+        v.push(ign("", Some(c)));
+    }
+    if !nested_ignores.is_empty() {
+        v.push(ign("d", None));
+    }
+    for c in nested_ignores {
+        v.push(ign("d", Some(c)));
+    }
+    v
 }
 
 // ---------------------------------------------------------------------------------------
@@ -317,14 +367,32 @@ fn expected_tree(disk: &Disk, tracked: &BTreeMap<String, Val>) -> BTreeMap<Strin
 /// combination of the alphabet and every path the alphabet can produce.
 fn validate_matcher_against_git(scratch: &Path) -> u64 {
     let dir = scratch.join("gitref");
+    let _ = std::fs::remove_dir_all(&dir);
+    std::fs::create_dir_all(&dir).unwrap();
+    let git = |args: &[&str]| {
+        std::process::Command::new("git")
+            .args(args)
+            .current_dir(&dir)
+            .env("GIT_CONFIG_SYSTEM", "/dev/null")
+            .env("GIT_CONFIG_GLOBAL", "/dev/null")
+            .env("GIT_CONFIG_NOSYSTEM", "1")
+            .env("HOME", &dir)
+            .env_remove("XDG_CONFIG_HOME")
+            .env_remove("GIT_DIR")
+            .output()
+            .unwrap_or_else(|e| machinery_failure(&format!("cannot run git: {e}")))
+    };
+    if !git(&["init", "-q", "--template=", "."]).status.success() {
+        machinery_failure("git init failed");
+    }
     let mut n = 0;
     let mut roots: Vec<Option<&str>> = vec![None];
     roots.extend(ROOT_IGNORES.iter().map(|s| Some(*s)));
     let mut nesteds: Vec<Option<&str>> = vec![None];
     nesteds.extend(NESTED_IGNORES.iter().map(|s| Some(*s)));
-    // (path, is file). `d` and `i` also occur as files.
+    // `d` and `i` also occur as files (second layout).
     let layouts: [&[&str]; 2] = [
-        &["f", "d/g", "d/.gitignore", "i/h", "i/j", "i/.gitignore", ".gitignore", "g"],
+        &["f", "d/g", "d/.gitignore", "i/h", "i/j", "i/k/g", "i/.gitignore", ".gitignore", "g"],
         &["f", "d", "i", ".gitignore"],
     ];
     for root in &roots {
@@ -333,22 +401,16 @@ fn validate_matcher_against_git(scratch: &Path) -> u64 {
                 if li == 1 && nested.is_some() {
                     continue;
                 }
-                let _ = std::fs::remove_dir_all(&dir);
-                std::fs::create_dir_all(&dir).unwrap();
-                let git = |args: &[&str]| {
-                    std::process::Command::new("git")
-                        .args(args)
-                        .current_dir(&dir)
-                        .env("GIT_CONFIG_SYSTEM", "/dev/null")
-                        .env("GIT_CONFIG_GLOBAL", "/dev/null")
-                        .env("GIT_CONFIG_NOSYSTEM", "1")
-                        .env("HOME", &dir)
-                        .env_remove("XDG_CONFIG_HOME")
-                        .output()
-                        .unwrap_or_else(|e| machinery_failure(&format!("cannot run git: {e}")))
-                };
-                if !git(&["init", "-q", "."]).status.success() {
-                    machinery_failure("git init failed");
+                for e in std::fs::read_dir(&dir).unwrap() {
+                    let e = e.unwrap();
+                    if e.file_name() == ".git" {
+                        continue;
+                    }
+                    if e.file_type().unwrap().is_dir() {
+                        std::fs::remove_dir_all(e.path()).unwrap();
+                    } else {
+                        std::fs::remove_file(e.path()).unwrap();
+                    }
                 }
                 let mut files: BTreeMap<String, Vec<u8>> = BTreeMap::new();
                 for p in layout.iter() {
@@ -372,7 +434,7 @@ fn validate_matcher_against_git(scratch: &Path) -> u64 {
                         }
                     }
                     // an ignore file inside `i` that would re-include everything: must have no
-                    // effect when `i/` is ignored
+                    // effect when `i/` is ignored (patterns of the implemented forms)
                     files.insert("i/.gitignore".into(), b"!h\n!j\n".to_vec());
                 }
                 for (p, c) in &files {
@@ -384,15 +446,25 @@ fn validate_matcher_against_git(scratch: &Path) -> u64 {
                     let p = if d.is_empty() { ".gitignore".to_string() } else { format!("{d}/.gitignore") };
                     files.get(&p).cloned()
                 };
-                for p in files.keys() {
-                    let out = git(&["check-ignore", "--no-index", "-q", "--", p]);
-                    let git_says = match out.status.code() {
-                        Some(0) => true,
-                        Some(1) => false,
-                        other => machinery_failure(&format!("git check-ignore exited with {other:?}")),
+                let mut args = vec!["check-ignore", "--no-index", "-v", "-n", "--"];
+                args.extend(files.keys().map(|k| k.as_str()));
+                let out = git(&args);
+                if !matches!(out.status.code(), Some(0) | Some(1)) {
+                    machinery_failure(&format!("git check-ignore failed: {}", String::from_utf8_lossy(&out.stderr)));
+                }
+                let text = String::from_utf8_lossy(&out.stdout).to_string();
+                let mut verdicts: BTreeMap<String, bool> = BTreeMap::new();
+                for line in text.lines() {
+                    let Some((left, path)) = line.split_once('\t') else {
+                        machinery_failure(&format!("unexpected git check-ignore output line {line:?}"));
                     };
-                    // `!h`/`!j` inside i/.gitignore are outside the literal alphabet but of the
-                    // implemented forms
+                    let pattern = left.splitn(3, ':').nth(2).unwrap_or("");
+                    verdicts.insert(path.to_string(), !pattern.is_empty() && !pattern.starts_with('!'));
+                }
+                for p in files.keys() {
+                    let Some(git_says) = verdicts.get(p).copied() else {
+                        machinery_failure(&format!("git check-ignore printed nothing for {p}"));
+                    };
                     let mine = file_ignored(&lookup, p);
                     if git_says != mine {
                         machinery_failure(&format!(
@@ -621,7 +693,21 @@ struct Failure {
 }
 
 /// Classifies a mismatch narrowly: which kind of path disagrees and how.
+/// What is readable at the path when symlinks in parent components are followed.
+fn read_following_symlinks(root: &Path, p: &str) -> Option<Val> {
+    let full = root.join(p);
+    let md = std::fs::symlink_metadata(&full).ok()?;
+    if md.file_type().is_symlink() {
+        Some(Val::Link { target: std::fs::read_link(&full).ok()?.to_str()?.to_string() })
+    } else if md.is_file() {
+        Some(Val::File { content: std::fs::read(&full).ok()?, exec: md.permissions().mode() & 0o111 != 0 })
+    } else {
+        None
+    }
+}
+
 fn mismatch_signature(
+    root: &Path,
     disk: &Disk,
     tracked: &BTreeMap<String, Val>,
     expected: &BTreeMap<String, Val>,
@@ -643,14 +729,24 @@ fn mismatch_signature(
                 None => {
                     // is an ancestor a file now?
                     let mut anc = parent_of(p);
-                    let mut replaced = false;
+                    let mut kind = "deleted-path-still-recorded";
+                    let mut below_ignored_dir = false;
                     while !anc.is_empty() {
-                        if matches!(disk.get(anc).map(|d| &d.node), Some(Node::File { .. } | Node::Link { .. })) {
-                            replaced = true;
+                        match disk.get(anc).map(|d| &d.node) {
+                            Some(Node::File { .. }) => kind = "stale-path-under-dir-replaced-by-file",
+                            Some(Node::Link { .. }) => kind = "stale-path-under-dir-replaced-by-symlink",
+                            Some(Node::Dir) if matched_ignored(&ig, anc, true) => below_ignored_dir = true,
+                            _ => {}
                         }
                         anc = parent_of(anc);
                     }
-                    if replaced { "stale-path-under-dir-replaced-by-file" } else { "deleted-path-still-recorded" }
+                    // the narrow known shape: a tracked path below an ignored directory, one of
+                    // whose parent components is a symlink now, recorded with exactly what is
+                    // readable through that symlink
+                    if kind == "stale-path-under-dir-replaced-by-symlink" && was_tracked && below_ignored_dir && a == read_following_symlinks(root, p).as_ref() {
+                        kind = "tracked-path-read-through-symlinked-parent";
+                    }
+                    kind
                 }
                 Some(Node::Dir) => "file-replaced-by-dir-still-recorded",
                 Some(_) if ignored && !was_tracked => "ignored-untracked-file-recorded",
@@ -807,6 +903,8 @@ fn snapshot_and_check(
             let text = format!("{e}");
             let kind = if text.contains("Failed to stat file") {
                 "error/stat-of-tracked-file"
+            } else if text.contains("Failed to read symlink") {
+                "error/read-symlink"
             } else if text.contains("Failed to read directory") {
                 "error/read-dir"
             } else if text.contains("Failed to open file") {
@@ -814,14 +912,24 @@ fn snapshot_and_check(
             } else {
                 "error/other"
             };
-            let mut chain = text;
+            let mut chain = text.clone();
             let mut src: Option<&dyn std::error::Error> = std::error::Error::source(&e);
             while let Some(s) = src {
                 chain.push_str(&format!(": {s}"));
                 src = s.source();
             }
+            let chain = chain.replace(&*w.root.to_string_lossy(), "<ws>");
+            let errno = if chain.contains("os error 20") {
+                "/not-a-directory"
+            } else if chain.contains("os error 40") {
+                "/symlink-loop"
+            } else if chain.contains("os error 2)") {
+                "/not-found"
+            } else {
+                ""
+            };
             return Err(Failure {
-                signature: format!("C23/snapshot/{kind}"),
+                signature: format!("C23/snapshot/{kind}{errno}"),
                 message: format!("snapshot failed ({chain}) although every path on disk is an ordinary file, symlink or directory; expected tree {}", show_tree(&expected)),
             });
         }
@@ -833,7 +941,7 @@ fn snapshot_and_check(
         tally_snapshot(t, &disk, tracked, &expected);
     }
     if actual != expected {
-        let (signature, detail) = mismatch_signature(&disk, tracked, &expected, &actual);
+        let (signature, detail) = mismatch_signature(&w.root, &disk, tracked, &expected, &actual);
         return Err(Failure {
             signature,
             message: format!("{detail}\n  previous snapshot {}\n  expected          {}\n  snapshot returned {}", show_tree(tracked), show_tree(&expected), show_tree(&actual)),
@@ -896,34 +1004,6 @@ fn state_key(w: &World, tracked: &BTreeMap<String, Val>) -> String {
     s
 }
 
-fn alphabet(b: &Bounds) -> Vec<Act> {
-    let mut v = vec![Act::Snapshot];
-    for p in &b.paths {
-        for c in &b.contents {
-            v.push(Act::Write { path: p.to_string(), content: c.to_string() });
-        }
-    }
-    for p in &b.paths {
-        v.push(Act::Delete { path: p.to_string() });
-        v.push(Act::Chmod { path: p.to_string() });
-        for t in &b.targets {
-            v.push(Act::Link { path: p.to_string(), target: t.to_string() });
-        }
-    }
-    for p in &b.mkdir_paths {
-        v.push(Act::Mkdir { path: p.to_string() });
-    }
-    v.push(Act::Ignore { dir: String::new(), content: None });
-    for c in ROOT_IGNORES {
-        v.push(Act::Ignore { dir: String::new(), content: Some(c.to_string()) });
-    }
-    v.push(Act::Ignore { dir: "d".into(), content: None });
-    for c in NESTED_IGNORES {
-        v.push(Act::Ignore { dir: "d".into(), content: Some(c.to_string()) });
-    }
-    v
-}
-
 fn case_json(history: &[Act], probe: bool) -> Value {
     json!({
         "history": history.iter().map(act_to_json).collect::<Vec<_>>(),
@@ -962,7 +1042,7 @@ fn step(ctx: &Ctx, tally: &Tally, samples: &Samples, b: &Bounds, history: &[Act]
         }
     }
     let key = state_key(&w, &tracked);
-    let actions: Vec<Act> = alphabet(b).into_iter().filter(|a| w.enabled(a)).collect();
+    let actions: Vec<Act> = b.actions.iter().filter(|a| w.enabled(a)).cloned().collect();
     if probe {
         if let Err(f) = snapshot_and_check(&mut w, &mut tracked, Some(tally)) {
             ctx.violation(&f.signature, format!("{}\n  history: {} + closing snapshot", f.message, show_history(history)), case_json(history, true));
@@ -975,19 +1055,21 @@ fn step(ctx: &Ctx, tally: &Tally, samples: &Samples, b: &Bounds, history: &[Act]
     Some(StepResult { key, actions })
 }
 
+fn show_act(a: &Act) -> String {
+    match a {
+        Act::Write { path, content } => format!("write {path}={content:?}"),
+        Act::Chmod { path } => format!("chmod-toggle-x {path}"),
+        Act::Link { path, target } => format!("symlink {path}->{target}"),
+        Act::Delete { path } => format!("rm -r {path}"),
+        Act::Mkdir { path } => format!("replace {path} by empty dir"),
+        Act::Ignore { dir, content: Some(c) } => format!("write {}.gitignore={c:?}", if dir.is_empty() { String::new() } else { format!("{dir}/") }),
+        Act::Ignore { dir, content: None } => format!("rm {}.gitignore", if dir.is_empty() { String::new() } else { format!("{dir}/") }),
+        Act::Snapshot => "snapshot".to_string(),
+    }
+}
+
 fn show_history(h: &[Act]) -> String {
-    h.iter()
-        .map(|a| match a {
-            Act::Write { path, content } => format!("write {path}={content:?}"),
-            Act::Chmod { path } => format!("chmod-toggle-x {path}"),
-            Act::Link { path, target } => format!("symlink {path}->{target}"),
-            Act::Delete { path } => format!("rm -r {path}"),
-            Act::Mkdir { path } => format!("replace {path} by empty dir"),
-            Act::Ignore { dir, content } => format!("{}/.gitignore={content:?}", dir),
-            Act::Snapshot => "snapshot".to_string(),
-        })
-        .collect::<Vec<_>>()
-        .join("; ")
+    h.iter().map(show_act).collect::<Vec<_>>().join("; ")
 }
 
 fn main() {
@@ -995,13 +1077,7 @@ fn main() {
     vcommon::silence_panics();
     let tally = Tally::default();
     let samples = Samples::new(6);
-    let full = Bounds {
-        paths: vec!["f", "d", "d/g", "i/h", "i/j", "i/k/m", "i/k"],
-        contents: vec!["x", "y", "xx"],
-        targets: vec!["f", "d", "nowhere"],
-        mkdir_paths: vec!["d", "f", "i/k"],
-        max_depth: usize::MAX,
-    };
+    let full = Bounds { actions: vec![], max_depth: usize::MAX };
     if let Some((_sig, case)) = ctx.replay_case() {
         let history: Vec<Act> = case["history"].as_array().unwrap_or_else(|| machinery_failure("replay: no history")).iter().map(act_from_json).collect();
         let probe = case["closing_probe_snapshot"].as_bool().unwrap_or(false);
@@ -1015,23 +1091,7 @@ fn main() {
         ctx.finish(Coverage { evaluations: 1, ..Default::default() });
     }
 
-    let t0 = std::time::Instant::now();
     let git_cases = validate_matcher_against_git(ctx.scratch());
-    if std::env::var("C23_TIME").is_ok() {
-        eprintln!("git validation {:?}", t0.elapsed());
-        let t0 = std::time::Instant::now();
-        for _ in 0..50 {
-            let _w = World::new();
-        }
-        eprintln!("50 x World::new + drop {:?}", t0.elapsed());
-        let mut w = World::new();
-        let t0 = std::time::Instant::now();
-        for i in 0..50 {
-            w.write_file("f", format!("{i}").as_bytes());
-            w.ws.snapshot().unwrap();
-        }
-        eprintln!("50 x write+snapshot {:?}", t0.elapsed());
-    }
 
     // determinism gate: one fixed trace replayed twice gives the same key
     {
@@ -1049,22 +1109,49 @@ fn main() {
         }
     }
 
-    // Searches. "wide": the whole alphabet at a small depth; "core": the paths that make up the
-    // clauses of the statement, deeper.
+    // Searches.
+    //  core:        the four paths of the design (plain file, `d` as file or directory, a file in
+    //               a directory that can be ignored) with every kind of edit and every ignore file.
+    //  ignored-dir: what happens to tracked and new files below a directory that becomes ignored,
+    //               including a tracked file whose parent directory is replaced by a file or by a
+    //               symlink to another directory; deeper, over a narrow alphabet.
+    //  wide:        (thorough) more paths, a third content, three link targets.
+    let core = |depth| Bounds {
+        actions: product_alphabet(&["f", "d", "d/g", "i/h"], &["x", "y"], &["f", "nowhere"], &["d"], &ROOT_IGNORES, &NESTED_IGNORES),
+        max_depth: depth,
+    };
+    let ignored_dir = |depth| Bounds {
+        actions: vec![
+            Act::Snapshot,
+            w("i/h", "x"),
+            w("i/h", "y"),
+            w("i/j", "x"),
+            w("i/k/g", "x"),
+            w("i/k", "x"),
+            w("d/g", "yy"),
+            rm("i/h"),
+            rm("i/k"),
+            ln("i/k", "../d"),
+            ign("", Some("i/\n")),
+            ign("", None),
+        ],
+        max_depth: depth,
+    };
+    let wide = |depth| Bounds {
+        actions: product_alphabet(
+            &["f", "d", "d/g", "i/h", "i/j"],
+            &["x", "y", "xx"],
+            &["f", "d", "nowhere"],
+            &["d", "i"],
+            &ROOT_IGNORES,
+            &NESTED_IGNORES,
+        ),
+        max_depth: depth,
+    };
     let searches: Vec<(&str, Bounds)> = if ctx.quick() {
-        vec![
-            (
-                "core",
-                Bounds { paths: vec!["f", "d", "d/g", "i/h"], contents: vec!["x", "y"], targets: vec!["f"], mkdir_paths: vec!["d"], max_depth: 3 },
-            ),
-        ]
+        vec![("core", core(3)), ("ignored-dir", ignored_dir(6))]
     } else {
-        vec![
-            (
-                "core",
-                Bounds { paths: vec!["f", "d", "d/g", "i/h"], contents: vec!["x", "y"], targets: vec!["f"], mkdir_paths: vec!["d"], max_depth: 4 },
-            ),
-        ]
+        vec![("core", core(5)), ("ignored-dir", ignored_dir(8)), ("wide", wide(4))]
     };
     let mut states = 0;
     let mut transitions = 0;
@@ -1082,8 +1169,8 @@ fn main() {
             // every action class of the alphabet was enabled and executed somewhere (every
             // enabled edit changes the disk by construction; edits that undo the previous one
             // legitimately lead back to a known state)
-            for a in alphabet(bounds) {
-                let label = act_label(&a);
+            for a in &bounds.actions {
+                let label = act_label(a);
                 if stats.per_action.get(&label).is_none_or(|(n, _)| *n == 0) {
                     machinery_failure(&format!("vacuous: action class {label} was never executed in search {name}"));
                 }
@@ -1092,18 +1179,13 @@ fn main() {
         extra.insert(
             format!("search_{name}"),
             json!({
-                "paths": bounds.paths,
-                "contents": bounds.contents,
-                "symlink_targets": bounds.targets,
-                "replace_by_empty_dir_paths": bounds.mkdir_paths,
-                "root_gitignore_contents": ROOT_IGNORES,
-                "d_gitignore_contents": NESTED_IGNORES,
+                "action_alphabet": bounds.actions.iter().map(show_act).collect::<Vec<_>>(),
                 "max_depth": bounds.max_depth,
                 "max_depth_completed": stats.max_depth_completed,
                 "capped": stats.capped,
                 "states": stats.states,
                 "transitions": stats.transitions,
-                "not_enabled": stats.invalid,
+                "histories_not_extended_after_a_violation": stats.invalid,
                 "per_depth_new_states": stats.per_depth_states,
                 "per_action_class_transitions_and_new_states": stats.per_action,
             }),
@@ -1154,7 +1236,7 @@ fn main() {
             ("tracked file inside an ignored directory modified", &t.tracked_inside_ignored_dir_modified),
         ] {
             if c.get() == 0 {
-                if std::env::var("C23_LAX").is_ok() { eprintln!("vacuous: no {what}"); } else { machinery_failure(&format!("vacuous: no {what}")); }
+                machinery_failure(&format!("vacuous: no {what}"));
             }
         }
     }
